@@ -563,6 +563,63 @@ CONSTEXPR_USES_SUBINT = [e % dict(R=r) for r in ("std::int8_t", "std::uint8_t", 
     "feet(%(R)s{6}) / feet(%(R)s{2})", "meters_pt(%(R)s{1}).coerce_in(centi(meters_pt))", "rep_cast<%(R)s>(feet(300)).in(feet)")]
 
 
+def deduced_template_template_params(ctx, headers):
+    """A partial specialisation that DEDUCES a template template parameter with a fixed parameter list
+    from a type (`template <template <class> class P, class U> struct X<P<U>>`) matches different
+    sets of types under different compilers and standards: since P0522 (g++ from C++17 on) `P` also
+    binds to templates with defaulted or variadic parameters, g++ in C++14 and clang 14 refuse that.
+    The same program is then accepted under one configuration and refused - or given another
+    type - under another (F-27).  S rule over a TU of every public header: every class template
+    partial specialisation with a template template parameter is listed; one whose parameter list
+    has no pack AND whose name is applied to arguments in the specialisation's own argument list is
+    reported.  (A variadic `template <class...> class Pack` matches every class template alike, and
+    a template template parameter that is only passed along by name is not deduced from a type.)"""
+    tu = "".join('#include "%s"\n' % h for h in headers if not needs_gtest(h))
+    res = srclint.clang_query(ctx, tu, [("ps", 'classTemplatePartialSpecializationDecl(hasDescendant(templateTemplateParmDecl()), isExpansionInFileMatching("/au/code/au/"))')], tag="c20ttp")
+    n, locs = res["ps"]
+    ctx.require(n >= 5, "only %d partial specialisations with template template parameters found (the pack utilities alone have more)" % n)
+    cache = {}
+    bad = []
+    seen = set()
+    for (f, l) in locs:
+        if (f, l) in seen:
+            continue
+        seen.add((f, l))
+        if f not in cache:
+            cache[f] = open(f).read().splitlines()
+        L = cache[f]
+        # the declaration: from the `template <` line(s) above the struct keyword to the `{` / `;`
+        a = l - 1
+        while a > 0 and not re.match(r"^\s*template\s*<", L[a]):
+            a -= 1
+        b = l - 1
+        while b < len(L) - 1 and "{" not in L[b] and not L[b].rstrip().endswith(";"):
+            b += 1
+        text = " ".join(L[a:b + 1])
+        for m in re.finditer(r"template\s*<([^<>]*)>\s*class\s+(\w+)", text):
+            plist, name = m.group(1), m.group(2)
+            if "..." in plist:
+                continue
+            # the specialisation's own argument list: `struct Name< ... >` up to the matching bracket
+            hm = re.search(r"\b(?:struct|class)\s+\w+\s*<", text[m.end():])
+            if not hm:
+                continue
+            i0 = m.end() + hm.end()
+            depth, i = 1, i0
+            while i < len(text) and depth:
+                depth += {"<": 1, ">": -1}.get(text[i], 0)
+                i += 1
+            head = text[i0:i]
+            if re.search(r"\b%s\s*<" % re.escape(name), head):
+                bad.append((f, l, name, plist.strip()))
+    for (f, l, name, plist) in bad:
+        rel = os.path.relpath(f, AU_INC)
+        ctx.violation("ttp-deduction:%s:%s" % (rel, name),
+                      "%s:%d: a partial specialisation deduces the template template parameter `template <%s> class %s` from a type: whether it also binds templates with defaulted or "
+                      "variadic parameters differs between g++ from C++17 on (P0522) and g++ C++14 / clang - the same program can be accepted under one and refused under the other" % (rel, l, plist, name))
+    return dict(partial_specialisations_with_template_template_parameters=len(seen), deduced_fixed_arity=len(bad))
+
+
 def odr_definitions(ctx, headers):
     """Before C++17 a static constexpr data member that is ODR-used (bound to a reference, passed to
     a `const T&` parameter) needs a definition at namespace scope; from C++17 on the in-class
@@ -843,6 +900,8 @@ def body(ctx):
     cx = constexpr_parity(ctx)
     ctx.log("constexpr parity: %s" % cx)
     odr = odr_definitions(ctx, headers)
+    ttp = deduced_template_template_params(ctx, headers)
+    ctx.log("template template parameters: %s" % ttp)
     ctx.log("ODR definitions: %s" % odr)
     stdc = std_collisions(ctx)
     ctx.log("std collisions: %s" % stdc)
@@ -856,7 +915,7 @@ def body(ctx):
         samples=[dict(rule="R1", header=headers[0]), dict(matrix="alone:%s" % headers[3]),
                  dict(single_file_selection="surface_io", args=["--units", "meters", "seconds", "hertz"]),
                  dict(api_surface="s_lossy compared as normalised IR DAG between single file and tree")],
-        exhaustive=False, structural=inst, fwd=fa, matrix=mat, single_file=sf, constexpr_parity=cx, odr_definitions=odr, std_collisions=stdc,
+        exhaustive=False, structural=inst, fwd=fa, matrix=mat, single_file=sf, constexpr_parity=cx, odr_definitions=odr, template_template_deduction=ttp, std_collisions=stdc,
         reviewed_conditionals=["%s: %s" % k for k in REVIEWED_CONDITIONALS],
         configs=[c.name for c in configs]))
     ctx.assumptions += ["the single-file generator is run as a build step (python), its output is analysed, never executed",
